@@ -122,3 +122,15 @@ Definition ast_encode_fetch_request : prog :=
       IPack [(Fi, ELen (EIdx (EVar 6) 1))];
       IFor (EIdx (EVar 6) 1)
         [IPack [(Fi, EIdx (EVar 7) 0); (Fq, EField (EIdx (EVar 7) 1) "offset"); (Fi, EField (EIdx (EVar 7) 1) "max_bytes")]]]].
+
+(* encode_produce_request(client_id, correlation_id, payloads, acks, timeout, api_version) *)
+Definition ast_encode_produce_request : prog :=
+  [IHeader (EVar 0) (EVar 1) (EConst 0) (EIfGe (EVar 5) 2 (EConst 2) (EVar 5));
+   IPack [(Fh, EVar 3); (Fi, EVar 4); (Fi, ELen (EGroup (EVar 2)))];
+   IFor (EGroup (EVar 2))
+     [IAscii (EIdx (EVar 6) 0);
+      IPack [(Fi, ELen (EIdx (EVar 6) 1))];
+      IFor (EIdx (EVar 6) 1)
+        [ILetMsgSet (EField (EIdx (EVar 7) 1) "messages") (EIfGe (EVar 5) 2 (EConst 1) (EConst 0))
+           [IPack [(Fi, EIdx (EVar 7) 0); (Fi, ELen (EVar 8))];
+            IRaw (EVar 8)]]]].
